@@ -187,6 +187,13 @@ func (sr *scenRun) evaluate(eps []*endpoint, reliable bool) {
 		// ---- (c) tamper oracle
 		sr.tamperOracle(e, tamperedRTP, tamperedAPP, apps, dec, reliable)
 	}
+	// what the server itself could not decode (receiver reports of readers, publisher traffic)
+	run.Count("server-decode-errors:"+tag, sr.srvDec.Load())
+	if n := sr.srvDec.Load(); n > 0 && !sc.Tamper && !sc.Plain && sc.Kind == "play" {
+		d1, _ := sr.srvDec1.Load().(string)
+		sr.fail("interop/"+sc.Transport+"/play/server-decode-error-without-tampering",
+			fmt.Sprintf("the server signalled %d decode errors for packets sent by its readers on an untampered secure session (first: %s)", n, d1), map[string]any{"kinds": sr.srvEP.decodeErrorKinds()})
+	}
 	if run.WantSample() {
 		run.Sample(map[string]any{"scenario": sc, "outbound_packets_scanned": scanned, "sequence_wraps": wraps, "endpoints": len(eps)})
 	}
